@@ -114,6 +114,8 @@ fn main() {
             }
             let (rule, exhaustive, per_line) = (plan.rule.clone(), plan.exhaustive, plan.per_line);
             let t0 = std::time::Instant::now();
+            let hang_s: u64 = std::env::var("VERIF_HANG_S").ok().and_then(|s| s.parse().ok()).unwrap_or(if thorough { 300 } else { 120 });
+            run::spawn_watchdog(prop.to_string(), tier.to_string(), seed, out.to_string(), std::time::Duration::from_secs(hang_s));
             let o = run::run_cases(driver, plan.cases, workers, 3);
             let j = run::outcome_json(
                 prop,
